@@ -107,6 +107,7 @@ func (c *Collection) Update(id string, msg proto.Message, opts ...WriteOption) (
 	}
 
 	var created proto.Message // during create, this is returned by GetFn so concurrent reference checks pass
+	var changeTime time.Time  // the time of this write, shared by the stored item and the event that reports it
 	oldValue, newValue, err := GetAndUpdate(
 		&c.mu,
 		func() (item proto.Message, err error) {
@@ -143,7 +144,8 @@ func (c *Collection) Update(id string, msg proto.Message, opts ...WriteOption) (
 		},
 		writeRequest.changeFn(writer, msg),
 		func(msg proto.Message) {
-			c.byId[id] = &item{body: msg, changeTime: writeRequest.updateTime(c.clock)}
+			changeTime = writeRequest.updateTime(c.clock)
+			c.byId[id] = &item{body: msg, changeTime: changeTime}
 		})
 
 	if err != nil {
@@ -159,7 +161,7 @@ func (c *Collection) Update(id string, msg proto.Message, opts ...WriteOption) (
 	}
 	c.bus.Send(context.TODO(), &CollectionChange{
 		Id:         id,
-		ChangeTime: writeRequest.updateTime(c.clock),
+		ChangeTime: changeTime,
 		ChangeType: changeType,
 		OldValue:   oldValue,
 		NewValue:   newValue,
